@@ -28,7 +28,7 @@ covered={
  ("x/spending.ApplySpendingPoolWithdrawProposalHandler.Apply","sub"):"Halt.withdraw_loop: reachable, finding Withdraw.Apply:neg-coin",
  ("x/staking/keeper.Keeper.BlockValidatorUpdates","panic"):"Halt.vend: unreachable under v_inv (staking_updates_never_panic): queues only receive keys of existing validators and validators are never deleted",
  ("x/feeprocessing/keeper.Keeper.ProcessExecutionFeeReturn","panic"):"Halt.pay_from_collector: reachable only if the fee collector cannot cover the refund (collector_shortfall_panics; depends on C04/C10 over-crediting) -- not reproduced",
- ("x/distributor/keeper.Keeper.AllocateTokensToValidator","panic"):"Halt.allocate / pay_from_collector: unreachable under allocate_never_panics' hypotheses (reward <= fees collected + inflation just minted)",
+ ("x/distributor/keeper.Keeper.AllocateTokensToValidator","panic"):"Halt.allocate / pay_from_collector: the payout itself is covered (allocate_never_panics) but REACHABLE once IncreasePoolRewards has paid an over-credit out of the collector first: finding AllocateTokensToValidator:insufficient-funds (C06_overcredit_shortfall_refuted)",
  ("x/distributor/keeper.Keeper.AllocateTokens","quo"):"Halt.allocate: snap period and InflationPeriod divisors; InflationPeriod >= 2629800 by the validated network properties (C19), SnapPeriod comes from genesis only (default 1000) -- zero only with a broken genesis",
  ("x/ubi/keeper.Keeper.ProcessUBIRecord","newcoin"):"Halt.ubi_mint: reachable, finding ProcessUBIRecord:neg-coin (amount >= 2^63 passes the wrapping hard-cap check)",
  ("x/ubi.ApplyUpsertUBIProposalHandler.Apply","div"):"Halt.ubi_apply: division by Period is input-only: Period = 0 panics in the dry run and fails the submission (ubi_period_zero_filtered); record.Period of stored records is therefore non-zero",
@@ -56,23 +56,26 @@ over={
  ("x/evidence/keeper.Keeper.HandleEquivocationEvidence","panic"):"unreachable: signing info is created when the validator joins (AfterValidatorJoined hook)",
  ("x/evidence/keeper.Keeper.HandleEquivocationEvidence","sub"):"time.Sub: no panic",
  ("x/slashing/keeper.Keeper.HandleValidatorSignature","panic"):"unreachable for votes of validators CometBFT knows through this app's updates (pubkey relation + signing info written on join); exercised by every block of the harness",
- ("x/slashing/keeper.Keeper.Jail","assert"):"suspected reachable (DESIGN section 6 #16: recovery rotation rewrites a slash proposal's content with the message): not reproduced here",
- ("x/multistaking/keeper.Keeper.IncreasePoolRewards","panic"):"autocompound payout from the fee collector: reachable only if credited rewards exceed the collector (C04/C10 over-crediting); dead code on the pinned tree (power = 0)",
+ ("x/slashing/keeper.Keeper.Jail","assert"):"not reached: after the rotation rewrites the proposal content (DESIGN #16) GetProposals panics in the codec BEFORE this assertion: finding GetProposal:any-unregistered-type (recovery-rotation histories)",
+ ("x/multistaking/keeper.Keeper.IncreasePoolRewards","panic"):"autocompound payout of the whole credit from the fee collector: with stake caps summing to 1 the credit exceeds the allocation by one unit (Halt.credit_two, C06_overcredit_shortfall_refuted); on the witness the shortfall surfaces in the following AllocateTokensToValidator",
  ("x/multistaking/keeper.Keeper.IncreasePoolRewards","quo"):"guarded: shareToken.Amount.IsZero() => continue",
  ("x/multistaking/keeper.Keeper.IncreasePoolRewards","sub"):"autoCompoundRewards is a sub-multiset of rewards by construction",
  ("x/multistaking/keeper.Keeper.IncreasePoolRewards","newcoin"):"non-negative products",
- ("x/multistaking/keeper.Keeper.SlashStakingPool","panic"):"burn / transfer of amounts computed as fractions (slash <= 1 after the MaxSlashingPercentage cap) of module-held stake: C10",
+ ("x/multistaking/keeper.Keeper.SlashStakingPool","panic"):"REACHABLE from SlashValidator.Apply in the gov end-blocker (proposal raised by Jail, no dry run): findings SlashStakingPool:nil-deref (keeper copy without distrKeeper) and SlashStakingPool:invalid-coins (0ukex burn); slash-proposal histories",
  ("x/multistaking/keeper.Keeper.SlashStakingPool","sub"):"fractions of the pool totals (slash in [0,1])",
  ("x/multistaking/keeper.Keeper.SlashStakingPool","newcoin"):"non-negative fractions",
  ("x/layer2/keeper.Keeper.EndBlocker","panic"):"premint payout of LP tokens minted at bootstrap for exactly this purpose",
- ("x/layer2/keeper.Keeper.FinishDappBootstrap","panic"):"mint to the layer2 module (minter) / payout of the premint just minted",
- ("x/layer2/keeper.Keeper.FinishDappBootstrap","quo"):"guarded: drip == 0 => 1",
+ ("x/layer2/keeper.Keeper.FinishDappBootstrap","panic"):"REACHABLE: MsgCreateDappProposal validates nothing: findings FinishDappBootstrap:invalid-coins / invalid-bech32 (dapp-bootstrap histories)",
+ ("x/layer2/keeper.Keeper.FinishDappBootstrap","quo"):"guarded against zero (drip == 0 => 1) but not against int64(drip) < 0: finding FinishDappBootstrap:neg-deccoin",
+ ("x/layer2/keeper.Keeper.FinishDappBootstrap","newcoin"):"REACHABLE: negative pool ratio / issuance: finding FinishDappBootstrap:neg-coin",
+ ("x/layer2/keeper.Keeper.FinishDappBootstrap","must"):"REACHABLE: TeamReserve is not validated at creation: finding FinishDappBootstrap:invalid-bech32",
+ ("x/layer2/keeper.Keeper.EndBlocker","must"):"TeamReserve of an ACTIVE dApp: a dApp only becomes active after FinishDappBootstrap parsed the same string when premint is positive; with premint 0 and postmint positive: suspected, not reproduced (bootstrap leaves the dApp Halted)",
  ("x/layer2/keeper.Keeper.ResetNewSession","div"):"modulo by the number of verified operators: guarded by the emptiness check before it",
  ("x/spending.ApplySpendingPoolDistributionProposalHandler.Apply","index"):"map lookups; the nil pool dereference on a missing pool is state-independent in practice (pools are never deleted) and fails the dry run",
  ("x/ubi/keeper.Keeper.ProcessUBIRecord","sub"):"sdk.Int arithmetic: no panic",
 }
 default={
- "must":"decodes bytes (or re-parses an address) that this module stored itself with the matching Marshal; layer2 TeamReserve / basket denoms validated at creation -- audited by kind",
+ "must":"decodes bytes (or re-parses an address) that this module stored itself with the matching Marshal -- audited by kind",
  "assert":"proposal content assertion inside its own handler: the router dispatches on ProposalType() of the same content, so the dynamic type matches",
  "index":"map lookup or index bounded by the enclosing loop / length check",
  "sub":"sdk.Int / time subtraction or Coins.Sub guarded by an error-returning balance check before it",
